@@ -15,6 +15,7 @@ number of points, on the edge buffer size, or on the length of the chain.
 -/
 import Kap.Proofs.C07Outcome
 import Kap.Proofs.C07Buf
+import Kap.Proofs.C07Wb
 import Kap.Gen.C07Shape
 import Kap.Gen.C07Go
 import Kap.Spec.C07Go
@@ -230,6 +231,64 @@ corpus/C07/outer-join-flush-on-stop.ops. -/
 theorem join_flush_once_loses_sets :
     (Buf.run true (Buf.init 10 7) (Buf.canon 10)).done = true ∧ (Buf.run true (Buf.init 10 7) (Buf.canon 10)).e = 8 ∧
     (Buf.run true (Buf.init 10 9) (Buf.canon 10)).e = 10 := by decide
+
+/-! ### The final flush of influxDBOut serves EVERY destination (write buffer with several keys, Model/C07Wb.lean) -/
+
+/-- **exact accounting per destination**, for every configuration (the seeded variant included), every schedule of
+points / flush ticks / the stop, every map iteration order at every flush, every set of failing destinations: what
+`cli.Write` was handed for key `k`, followed by what is still buffered under `k`, is exactly what the node enqueued under
+`k`, in order (nothing invented, duplicated, reordered or moved to another destination); a healthy destination accepted
+everything it was handed, a rejecting one nothing; and a buffer that has not stopped can always stop. -/
+theorem wb_accounting (cfg : Wb.Cfg) (sched : List Wb.Act) (k : Nat) :
+    let s := Wb.run cfg Wb.init sched
+    Wb.attempted s k ++ s.buf k = Wb.enqueued s k ∧
+    Wb.delivered s k = (if Wb.rejected cfg k then [] else Wb.attempted s k) ∧
+    (s.stopped = false → (Wb.step cfg s (.stop [])).isSome = true) := by
+  intro s
+  have hi : Wb.Inv cfg s := Wb.inv_run sched (Wb.inv_init cfg)
+  exact ⟨hi.acc k, Wb.delivered_eq hi k, Wb.can_move cfg s⟩
+
+/-- **the stop hands every accepted point to its destination**: with the loop of the code as it is (`writeAll` goes on
+after a failing write), for EVERY schedule, EVERY iteration order of the map at every flush and EVERY set of
+destinations whose writes fail: once stopBuffer has returned nothing is left in the buffer - every point the node
+enqueued under a key was handed to `cli.Write` under that key, in order, and every healthy destination accepted all of
+its points. A failing output does not cost the other outputs their points. -/
+theorem stop_flush_attempts_every_batch (cfg : Wb.Cfg) (sched : List Wb.Act) (k : Nat)
+    (hf : cfg.stopAtFirstErr = false) :
+    let s := Wb.run cfg Wb.init sched
+    s.stopped = true →
+      s.buf k = [] ∧ Wb.attempted s k = Wb.enqueued s k ∧
+      (Wb.rejected cfg k = false → Wb.delivered s k = Wb.enqueued s k) := by
+  intro s hs
+  have hi : Wb.Inv cfg s := Wb.inv_run sched (Wb.inv_init cfg)
+  have hb := hi.fl hf hs k
+  have ha := hi.acc k
+  rw [hb, List.append_nil] at ha
+  refine ⟨hb, ha, fun hr => ?_⟩
+  rw [Wb.delivered_eq hi k, hr]; simpa using ha
+
+/-- Non-vacuity: 3 destinations, the first one rejecting, buffer 10, 8 points, the map iterated with the failing key
+FIRST: the stop is reached, the healthy destinations accepted their points, the failing one was handed its own. -/
+example :
+    let s := Wb.run { size := 10, nkeys := 3, rejects := [0] } Wb.init (Wb.canon 8 3 [0, 1, 2])
+    s.stopped = true ∧ Wb.delivered s 1 = [1, 4, 7] ∧ Wb.delivered s 2 = [2, 5] ∧ Wb.attempted s 0 = [0, 3, 6] ∧
+    Wb.delivered s 0 = [] ∧ s.errors = 1 ∧ s.written = 5 := by decide
+
+/-- seeded change C07-6 (`stopAtFirstErr = true`: writeAll returns at the first failing write, "the rest goes out with
+the next flush"): 3 destinations, destination 0 rejects, 8 accepted points, none of the batches full. When the map
+iteration meets the failing batch FIRST, the final flush stops there, abort() follows, and the batches of the two
+healthy destinations are never handed over: 5 of 8 points are gone without a write attempt or an error. When the
+failing batch comes LAST nothing is lost (the loss depends on the iteration order), and a flush TICK only delays the
+other batches (the next flush writes them). Replayed on the real code by
+corpus/C07/influxdbout-several-databases-one-rejecting.ops. -/
+theorem stop_at_first_error_loses_healthy_batches :
+    let cfg : Wb.Cfg := { size := 10, nkeys := 3, rejects := [0], stopAtFirstErr := true }
+    let s := Wb.run cfg Wb.init (Wb.canon 8 3 [0, 1, 2])
+    let t := Wb.run cfg Wb.init (Wb.canon 8 3 [1, 2, 0])
+    let u := Wb.run cfg Wb.init ((Wb.canon 8 3 [0, 1, 2]).dropLast ++ [.tick [0, 1, 2], .stop []])
+    (s.stopped = true ∧ Wb.attempted s 1 = [] ∧ Wb.attempted s 2 = [] ∧ s.buf 1 = [1, 4, 7] ∧ s.buf 2 = [2, 5] ∧ s.errors = 1) ∧
+    (t.stopped = true ∧ Wb.delivered t 1 = [1, 4, 7] ∧ Wb.delivered t 2 = [2, 5]) ∧
+    (u.stopped = true ∧ Wb.delivered u 1 = [1, 4, 7] ∧ Wb.delivered u 2 = [2, 5]) := by decide
 
 /-! ### Stopping never kills the daemon -/
 
